@@ -46,10 +46,17 @@ Dec == /\ Is("Dec") /\ Known(Ev.type)
        /\ C08(Ev)
        /\ stats' = [stats EXCEPT !.accepted = @ + 1, !.nontrivial = @ + (IF Ev.doc.t \in {"obj", "arr"} THEN 1 ELSE 0)]
        /\ l' = l + 1 /\ UNCHANGED schemas
-Step == SchemaEv \/ Enc \/ Dec
+\* C08 through the server: a request body handed to API.ServeHTTP and parsed inside the handler
+\*   Body {case, type, mut, prop, reached, ok, names, panic}
+BodyEv == /\ Is("Body") /\ Known(Ev.type)
+          /\ Ev.panic = "" /\ Ev.reached
+          /\ IF Ev.mut = "none" THEN Ev.ok ELSE (~Ev.ok /\ Ev.names)
+          /\ stats' = [stats EXCEPT !.accepted = @ + 1, !.nontrivial = @ + 1]
+          /\ l' = l + 1 /\ UNCHANGED schemas
+Step == SchemaEv \/ Enc \/ Dec \/ BodyEv
 
 Why == IF Ev.ev = "Enc" /\ Known(Ev.type) THEN [c06 |-> C06(Ev), c07 |-> IF Ev.encOK /\ Ev.j.t # "invalid" THEN C07(Ev) ELSE FALSE, c08 |-> TRUE]
-       ELSE IF Ev.ev = "Dec" /\ Known(Ev.type) THEN [c06 |-> TRUE, c07 |-> TRUE, c08 |-> FALSE]
+       ELSE IF Ev.ev \in {"Dec", "Body"} /\ Known(Ev.type) THEN [c06 |-> TRUE, c07 |-> TRUE, c08 |-> FALSE]
        ELSE [c06 |-> FALSE, c07 |-> FALSE, c08 |-> FALSE]
 
 \* known finding: a component schema that is a bare date-time becomes `type T time.Time`, which has no JSON methods
